@@ -1,6 +1,6 @@
 module verif/harness
 
-go 1.18
+go 1.21
 
 require github.com/jsightapi/jsight-schema-core v0.0.0
 
